@@ -136,7 +136,7 @@ def main_check(pid, tier, seed):
             print("KNOWN-FINDING: property=%s %s" % (pid, kf))
         for l in lines:
             print(l)
-        if not only:
+        if not only and not os.environ.get("VERIF_NO_EVIDENCE"):
             write_evidence(pid, mod, tier, seed, results, nat, time.time() - t0, violations, known)
         _summary(pid, results, nat, time.time() - t0, rc)
     finally:
